@@ -315,7 +315,7 @@ fn classify(case: &Case) -> Option<Model> {
             Some(Model::Join { jt: *jt, keys, masked: matches!(out.op, Operation::JoinWithColumnMasks(_, _)) })
         }
         Operation::Sort(key) if out.deps == vec![0] && is_input(0) => Some(Model::Sort { key: key.clone(), integer: false }),
-        Operation::Custom(c) if out.deps == vec![0] && is_input(0) && c.get_name().starts_with("SortByIntegerKey") => {
+        Operation::Custom(c) if out.deps == vec![0] && is_input(0) && (c.get_name().starts_with("SortByIntegerKey") || c.get_name().starts_with("SortIntegers")) => {
             // the key is the only parameter; recover it from the serialised operation
             let j = serde_json::to_value(c).ok()?;
             let key = find_key(&j)?;
